@@ -6478,7 +6478,7 @@ bool SoPlexBase<R>::setRealParam(const RealParam param, const Real value, const 
       return true;
 
    if(value < _currentSettings->realParam.lower[param]
-         || value > _currentSettings->realParam.upper[param])
+         || value > _currentSettings->realParam.upper[param] || value != value)
       return false;
 
    // required to set a different feastol or opttol
